@@ -21,12 +21,15 @@ META = {
     'trusted_base': ['rustc MIR construction and const evaluation', 'alloc::vec::Vec API contracts'],
 }
 
+nonstrict = []
+
 GROW = ('extend', 'extend_from_slice', 'resize', 'reserve', 'reserve_exact', 'push', 'append', 'insert', 'resize_with', 'extend_from_within')
 
 
 def limit_tests(body, adt, buf_field):
     """switches comparing buffer.len() (or a field dominated-equal to it) with the MAX_BUFFER_SIZE const.
-    returns list of (switch_block, below_edge, over_edge)"""
+    returns list of (switch_block, below_edge, over_edge); comparisons whose growing edge admits len == MAX are
+    collected in `nonstrict` (module-level, reset by the caller) and do not count as guards"""
     out = []
     for sw in range(body.n):
         if body.is_cleanup(sw) or body.term(sw)['k'] != 'switch':
@@ -60,6 +63,10 @@ def limit_tests(body, adt, buf_field):
                 op = info['op']
                 if x == 'b':   # const OP value  -> flip
                     op = {'Ge': 'Le', 'Gt': 'Lt', 'Lt': 'Gt', 'Le': 'Ge'}[op]
+                if op in ('Gt', 'Le'):
+                    # `len > MAX` / `len <= MAX`: the growing edge still admits len == MAX, one step beyond the limit
+                    nonstrict.append(sw)
+                    continue
                 over = info['true'] if op in ('Ge', 'Gt') else info['false']
                 below = info['false'] if op in ('Ge', 'Gt') else info['true']
                 out.append((sw, below, over))
@@ -68,6 +75,7 @@ def limit_tests(body, adt, buf_field):
 
 def check_crate(fx, rep, crate, cfg):
     n_growth = 0
+    del nonstrict[:]
     for adt in (RC, WC):
         # buffer field = the Vec<u8> field of the ADT
         a = [v for p, v in crate.adts.items() if p.endswith(adt)]
@@ -99,7 +107,8 @@ def check_crate(fx, rep, crate, cfg):
                     key = '%s|growth|%s|%s' % (body.path, t['callee']['name'], cfg)
                     rep.check(ok, 'R17.1', key, C.where(body, b),
                               'growth of %s.%s is dominated by the below-limit edge of a len-vs-MAX_BUFFER_SIZE test whose other edge returns BufferOverflow' % (adt.split('::')[-1], bf),
-                              'the buffer of %s is grown without a dominating length-vs-MAX_BUFFER_SIZE test (unbounded memory)' % adt.split('::')[-1])
+                              ('the buffer of %s is grown behind a limit test that still admits len == MAX_BUFFER_SIZE (`>` instead of `>=`): the buffer grows one step beyond the limit' % adt.split('::')[-1])
+                              if nonstrict else 'the buffer of %s is grown without a dominating length-vs-MAX_BUFFER_SIZE test (unbounded memory)' % adt.split('::')[-1])
                     # R17.2 step
                     step_ok = False
                     for aop in t['args'][1:]:
